@@ -6,7 +6,118 @@ P: see CONTRACTS (sigma2coeff per-element overlap, weight normalisation) when pr
 import itertools
 from .common import *   # noqa
 
-CONTRACTS = []
+import z3
+from pyvc.nparr import sym_array, SArr
+from pyvc.exec import LoopSpec
+
+CU = 'coordutil.py'
+
+
+def overlap(b, t, lay):
+    """length of the overlap of [b, t] with source layer [lay, lay+1] in index space"""
+    return sym.max_(0, sub(sym.min_(t, add(lay, 1)), sym.max_(b, lay)))
+
+
+class Sigma2Coeff(Contract):
+    """coeff[lay, li] is the length (in source-layer index space) of the overlap of target layer li with source layer lay,
+    for source/target grids of ARBITRARY size; b, t are the positions np.interp assigns to the two edges of the target layer"""
+    prop = 'C17'
+    target = CU + '::sigma2coeff'
+    max_paths = 60
+
+    def inputs(self, ctx, I):
+        n, m = ctx.fresh('nfrom'), ctx.fresh('nto')       # numbers of level EDGES
+        fr = sym_array('fromvglvls', (n,), 'f')
+        to = sym_array('tovglvls', (m,), 'f')
+        self.n, self.m, self.fr, self.to = n, m, fr, to
+        self.I = I
+        return dict(fromvglvls=fr, tovglvls=to, n=n, m=m)
+
+    def call_args(self, inp):
+        return [inp['fromvglvls'], inp['tovglvls']], {}
+
+    def requires(self, inp):
+        n, m, fr, to = inp['n'], inp['m'], inp['fromvglvls'], inp['tovglvls']
+        i, j = z3.Int('di'), z3.Int('dj')
+        dec = lambda a, k: z3.ForAll([i, j], Implies(And(ge(i, 0), lt(i, j), lt(j, k)), gt(a.get(i), a.get(j))))
+        # strictly decreasing sigma edges sharing top and bottom
+        return And(ge(n, 2), ge(m, 2), dec(fr, n), dec(to, m), eq(fr.get(0), to.get(0)), eq(fr.get(sub(n, 1)), to.get(sub(m, 1))))
+
+    # positions of the target edges in source index space, from the np.interp record
+    def pos(self, ctx, k):
+        g = ctx.ghost['interp'][-1]
+        # the interpolation ran on the reversed arrays; edge k of the target is element m-1-k of the reversed target
+        return g['value'](self.to.get(k))
+
+    def spec(self, ctx, lay, li):
+        return overlap(self.pos(ctx, li), self.pos(ctx, add(li, 1)), lay)
+
+    def col_done(self, env, coeff, j):
+        lay = z3.Int('iv_lay')
+        nl = sub(self.n, 1)
+        return z3.ForAll([lay], Implies(And(ge(lay, 0), lt(lay, nl)), eq(coeff.get(lay, j), self.spec(env.ctx, lay, j))))
+
+    def inv_outer(self, env):
+        coeff = env['coeff']
+        k = env[env.frame.loop_index_name] if hasattr(env.frame, 'loop_index_name') and env.frame.loop_index_name in env else 0
+        j, lay = z3.Int('io_j'), z3.Int('io_lay')
+        nl, nt = sub(self.n, 1), sub(self.m, 1)
+        done = z3.ForAll([j, lay], Implies(And(ge(j, 0), lt(j, k), ge(lay, 0), lt(lay, nl)), eq(coeff.get(lay, j), self.spec(env.ctx, lay, j))))
+        untouched = z3.ForAll([j, lay], Implies(And(ge(j, k), lt(j, nt), ge(lay, 0), lt(lay, nl)), eq(coeff.get(lay, j), 0)))
+        return And(ge(k, 0), le(k, nt), done, untouched)
+
+    def inv_inner(self, env):
+        coeff = env['coeff']
+        li, b, t, ll, ul = env['li'], env['b'], env['t'], env['ll'], env['ul']
+        L = env['__it_lay']
+        j, lay = z3.Int('ii_j'), z3.Int('ii_lay')
+        nl, nt = sub(self.n, 1), sub(self.m, 1)
+        this_done = z3.ForAll([lay], Implies(And(ge(lay, ll), lt(lay, L), lt(lay, nl)), eq(coeff.get(lay, li), overlap(b, t, lay))))
+        this_zero = z3.ForAll([lay], Implies(And(ge(lay, 0), lt(lay, nl), Or(lt(lay, ll), ge(lay, L))), eq(coeff.get(lay, li), 0)))
+        facts = And(ge(li, 0), lt(li, nt), eq(b, self.pos(env.ctx, li)), eq(t, self.pos(env.ctx, add(li, 1))),
+                    ge(b, 0), le(t, nl), le(b, t),
+                    eq(ll, sym.floor_(b)), eq(ul, sym.ceil_(t)), ge(L, ll), le(L, ul))
+        return And(facts, this_done, this_zero)
+
+    def inner_lemmas(self, env):
+        """monotonicity of the piece-wise linear position function, staged for the solver"""
+        g = env.ctx.ghost['interp'][-1]
+        li = env['li']
+        v1, v2 = self.to.get(li), self.to.get(add(li, 1))
+        k1, k2 = g['cell'](v1), g['cell'](v2)
+        b, t = env['b'], env['t']
+        nl = sub(self.n, 1)
+        xp, last = g['xp'], sub(g['n'], 1)
+        in1 = And(ge(v1, xp.get(0)), lt(v1, xp.get(last)))
+        in2 = And(ge(v2, xp.get(0)), lt(v2, xp.get(last)))
+        return [('target-edges-decrease', gt(v1, v2)),
+                ('b-is-position', eq(b, g['value'](v1))), ('t-is-position', eq(t, g['value'](v2))),
+                ('trusted:numpy.interp cell axiom at the two edges of the target layer', And(g['axiom'](v1), g['axiom'](v2))),
+                ('positions-in-range', And(ge(b, 0), le(b, nl), ge(t, 0), le(t, nl))),
+                ('b<=t', le(b, t))]
+
+    def inner_writes(self, env, idx):
+        # the inner loop writes column li only
+        return eq(idx[1], env['li'])
+
+    @property
+    def loops(self):
+        return {0: LoopSpec(inv=self.inv_outer), 1: LoopSpec(inv=self.inv_inner, decreases=lambda env: sub(env['ul'], env['__it_lay']), modifies={'coeff': self.inner_writes}, lemmas=self.inner_lemmas)}
+
+    def ensures(self, inp, res, I):
+        if not isinstance(res, SArr):
+            return [('returns-matrix', False)]
+        n, m = inp['n'], inp['m']
+        lay, li = z3.Int('lay'), z3.Int('li')
+        rng = And(ge(lay, 0), lt(lay, sub(n, 1)), ge(li, 0), lt(li, sub(m, 1)))
+        return [('shape', And(eq(res.shape[0], sub(n, 1)), eq(res.shape[1], sub(m, 1)))),
+                ('coeff[lay,li]=overlap-length', Implies(rng, eq(res.get(lay, li), self.spec(I.ctx, lay, li))))]
+
+    def small(self, inp):
+        return And(le(inp['n'], 4), le(inp['m'], 4))
+
+
+CONTRACTS = [Sigma2Coeff()]
 
 
 def bounded(tier, seed):
@@ -149,8 +260,12 @@ def bounded_replay(p):
 
 
 META = dict(
-    level='exploration',
-    technique='bounded run-time contract with numeric tolerance (float32); algebraic laws over reals planned as pyvc contracts',
-    text='weights laws and mass conservation checked numerically on the real functions over the stated grids.',
-    note='bounded only.',
-    assumptions=[], explanation='')
+    level='other',
+    technique='loop invariants over symbolic-size arrays proved by pyvc/z3 for sigma2coeff (nested cut-point loops, frame conditions, staged lemmas); bounded numeric checks for the sum laws',
+    text='Proved for source/target sigma grids of any size: every element of the matrix returned by sigma2coeff is the length of the overlap of the target layer with the source '
+         'layer in source-index space (nested loop invariants; the inner loop writes only its own column; termination by variant). Bounded (float32): non-negativity / partition of unity / '
+         'linear exactness / identity of getinterpweights, overlap fractions against an independent computation, column mass and constant fields under interpSigma, interpDimension.',
+    note='A-REAL; np.interp is a trusted contract (piece-wise linear on the bracketing cell, value between the bracketing samples; its monotonicity precondition is an obligation); the sum laws '
+         '(rows sum to one, mass conservation) need induction over sums and are bounded only.',
+    assumptions=[sym.A_REAL],
+    explanation='mixed: discharged proof obligations for sigma2coeff + bounded numeric exploration for the sum laws and the scipy-based weights')
